@@ -309,15 +309,33 @@ CasesC11b(lazy) ==
 (* more than a dozen selected subtrees below one map, several per key: the order is the sorted walk *)
 Wide11 == M([k \in {"alpha", "bravo", "charlie", "delta", "echo", "foxtrot"} |->
              M([j \in {"s1", "s2", "s3", "s4", "s5", "s6"} |-> Mk2("$output", True, "id", S(k \o "-" \o j))])])
+(* markers that exist only AFTER evaluation: a subtree copied in from another document brings its *)
+(* marker along, and a root-level $replace takes the hiding root away. $output is decided on the  *)
+(* evaluated document (phase 6), so each stream means what its hand-evaluated twin means.         *)
+Src11 == Mk3("name", S("base"), "svc", Mk2("$output", True, "port", I("80")), "plain", Single("x", I("1")))
+Ref11(path) == Mk2("$match", Single("name", S("base")), "$path", S(path))
+Pairs11 ==
+  { << <<Src11, WithMark(Mk2("name", S("hid"), "copy", Mk2("$merge", Ref11("svc"), "extra", I("1"))), r)>>,
+       <<Src11, WithMark(Mk2("name", S("hid"), "copy", Mk3("$output", True, "port", I("80"), "extra", I("1"))), r)>> >> : r \in MarkSet }
+  \cup { << <<Src11, WithMark(Mk2("name", S("hid"), "copy", Single("$replace", Ref11("svc"))), r)>>,
+            <<Src11, WithMark(Mk2("name", S("hid"), "copy", Mk2("$output", True, "port", I("80"))), r)>> >> : r \in MarkSet }
+  \cup { << <<Src11, Mk2("$output", False, "$replace", Ref11("plain"))>>, <<Src11, Single("x", I("1"))>> >>,
+           << <<Src11, Mk2("$output", False, "$replace", Ref11("svc"))>>, <<Src11, Mk2("$output", True, "port", I("80"))>> >>,
+           << <<Mk2("$output", False, "$replace", Ref11("plain")), Src11>>, <<Single("x", I("1")), Src11>> >> }
+CasesC11dyn == {Case(p[1], NoEnv, "dynamic") : p \in Pairs11}
+
 CasesC11(lazy) ==
-  CasesC11b(0) \cup {Case(<<Wide11>>, NoEnv, "wide")} \cup
+  CasesC11b(0) \cup {Case(<<Wide11>>, NoEnv, "wide")} \cup CasesC11dyn \cup
   {Case(<<Shape11(r, a, b, cl)>>, NoEnv, "marks") : r \in MarkSet, a \in MarkSet, b \in MarkSet, cl \in MarkSet}
   \cup {Case(<<Shape11(r, a, "n", "n"), Shape11("n", "n", b, cl)>>, NoEnv, "stream") : r \in MarkSet, a \in MarkSet, b \in MarkSet, cl \in MarkSet}
   \cup {Case(<<L(<<Single("$output", True), Single("w", Mk2("$output", True, "p", I("1"))), L(<<Single("$output", mk), I("2")>>)>>)>>, NoEnv, "lists") : mk \in {True, False}}
   \cup {Case(<<L(<<Mk2("$output", mk, "extra", I("1")), I("2")>>)>>, NoEnv, "extrakeys") : mk \in {True, False}}
 
 LawC11(cs) ==
-  CASE cs.tag \in {"marks", "stream", "lists"} ->
+  CASE cs.tag = "dynamic" ->
+         \E p \in Pairs11 : cs.docs = p[1] /\
+            LET a == EvalS(p[1], NoEnv)  b == EvalS(p[2], NoEnv) IN a.ok /\ b.ok /\ a.v = b.v /\ Len(a.v) >= 2
+    [] cs.tag \in {"marks", "stream", "lists"} ->
          LET r == EvalS(cs.docs, NoEnv)
              e == FoldRes(LAMBDA acc, d : Ok(acc \o Expected11(d)), <<>>, cs.docs).v
          IN /\ r.ok /\ SameBag(r.v, e)
@@ -364,6 +382,8 @@ CasesC12(lazy) ==
   (* a computed key of an inline repeat uses the index of ITS OWN loop, also inside another loop *)
   \cup {CaseX(<<Mk2("$repeat", I(NatStr(n)), "m", Single("$\"k{$repeat}\"", Mk2("$repeat", I("3"), "v", S("$repeat"))))>>, NoEnv, "nestedkey", n) : n \in 1..2}
   \cup {CaseX(<<Single("l", L(<<Mk2("$repeat", I("2"), "m", Single("$\"k{$repeat}\"", Mk2("$repeat", I("3"), "v", S("$repeat"))))>>))>>, NoEnv, "nestedkeylist", 2) : dummy \in {1}}
+  (* a placeholder naming a key whose own value is the bare repeat variable *)
+  \cup {CaseX(<<Mk3("$repeat", I(NatStr(n)), k, S("$repeat"), "name", S("$\"srv-{" \o k \o "}\""))>>, NoEnv, "indirect", k) : n \in Counts, k \in {"shard", "aa"}}
   \cup {Case(<<Body12 %% Single("$repeat", v)>>, NoEnv, "badcount") : v \in {S("2"), F("1.5"), True, L(<<I("1")>>), Mk2("x", I("1"), "y", S("2")),
                                            (* a bad count is an error also when an earlier name already makes the product empty *)
                                            Mk2("x", I("0"), "y", S("2")), Mk2("x", I("0"), "y", F("1.5")), Mk2("x", I("-1"), "y", True), Mk2("x", S("2"), "y", I("0"))}}
@@ -422,6 +442,7 @@ LawC12(cs) ==
                                                       /\ CountOf(At(At(d, "$repeat"), "x")) * CountOf(At(At(d, "$repeat"), "y")) > 0)
                               \/ Eval1(d) = Ok(<<>>)
     [] cs.tag = "neglist" -> Eval1(d) = Ok(<<cs.aux>>)
+    [] cs.tag = "indirect" -> Eval1(d) = Ok([i \in 1..n |-> Mk2(cs.aux, I(NatStr(i - 1)), "name", S("srv-" \o NatStr(i - 1)))])
     [] cs.tag \in {"badcount", "badnested"} -> ~Eval1(d).ok
     [] OTHER -> TRUE
 
@@ -453,6 +474,9 @@ CasesC13(lazy) ==
                     <<"$\"{n}}\"", "42}", FALSE>>, <<"$\"}{n}{\"", "}42{", FALSE>> }}
   \cup {Case(<<Mk2("t", S("$env:" \o v), "$env:V", I("1"))>>, Env13, "env") : v \in {"V", "E", "N", "UNSET", "Q", "R"}}
   \cup {Case(<<Mk3("a", S("$\"{b}\""), "b", S("$\"<{n}>\""), "n", I("5"))>>, Env13, "nested") : x \in {1}}
+  (* a placeholder naming a key whose own value is an environment reference: the fetched string is evaluated like any other value *)
+  \cup {CaseX(<<Mk3(k, S("$env:" \o v), "u", S("$\"<{" \o k \o "}>\""), "n", I("5"))>>, Env13, "indirect", <<k, v>>)
+          : k \in {"h", "zh"}, v \in {"V", "E", "N", "Q", "UNSET"}}
 
 LawC13(cs) ==
   LET r == EvalS(cs.docs, cs.env) IN
@@ -476,6 +500,10 @@ LawC13(cs) ==
          IF At(cs.docs[1], "t") = S("$env:UNSET") THEN ~r.ok
          ELSE r.ok /\ IsStr(At(r.v[1], "t")) /\ Has(r.v[1], "val") /\ ~Has(r.v[1], "$env:V")
     [] cs.tag = "nested" -> r = Ok(<<Mk3("a", S("<5>"), "b", S("<5>"), "n", I("5"))>>)
+    [] cs.tag = "indirect" ->
+         LET k == cs.aux[1]  v == cs.aux[2] IN
+         IF v = "UNSET" THEN ~r.ok
+         ELSE r = Ok(<<Mk3(k, S(Env13[v]), "u", S("<" \o Env13[v] \o ">"), "n", I("5"))>>)
     [] OTHER -> TRUE
 
 ---------------------------------------------------------------------------
@@ -510,6 +538,11 @@ CasesC14(lazy) ==
   \cup {CaseX(<<Single("out", L(<<Mk3("$repeat", I("3"), "args", L(<<S("a"), S("b"), Single("$encode", EncArg(st))>>), "i", S("$repeat"))>>))>>, NoEnv, "repeatenc", st)
           : st \in {<<"join:,">>, <<"prefix:-", "join">>, <<"flatten">>}}
   \cup {CaseX(<<Single("out", Single("$\"k{$repeat}\"", Mk2("$repeat", I("2"), "args", L(<<Single("$encode", S("join:+")), S("x"), S("y")>>))))>>, NoEnv, "repeatencmap", <<>>) : dummy \in {1}}
+  (* $value, $decode and $encode side by side: $encode is taken first, its operand is the REST of the map, *)
+  (* which decodes; the result is the encoding of the decoded tree                                         *)
+  \cup {CaseX(<<Single("out", Mk3("$value", S(t[1]), "$decode", S("json"), "$encode", EncArg(t[2])))>>, NoEnv, "decenc", t)
+          : t \in { <<"[1, \"b\"]", <<"join:,">>>>, <<"{\"k\": \"v\", \"e\": \"\"}", <<"flags">>>>, <<"{\"k\": [1, 2]}", <<"values", "flatten", "join">>>>,
+                    <<"[1, 2]", <<"json">>>>, <<"[1, 2]", <<"bogus">>>> }}
   (* $decode: the shapes that are errors before any decoder is asked *)
   \cup {CaseX(<<Single("out", d)>>, NoEnv, "baddecode", <<>>)
           : d \in { Mk2("$decode", S("json"), "$value", I("5")), Mk2("$decode", S("json"), "$value", L(<<S("1")>>)),
